@@ -116,7 +116,19 @@ func VerifC11Domain() {
 func VerifC11Group() {
 	n := 1 + zz.Choose("ngrp", 2)
 	pol := verifPolicy{Groups: verifStrings("pol.grp", n)}
+	// one shape: the directory reports a group that differs from the listed one only in letter case
+	caseVariant := zz.NondetBool("directory.reports.case-variant")
+	rest := ""
+	if caseVariant {
+		rest = zz.NondetString("grp.rest")
+		n = 1
+		pol = verifPolicy{Groups: []string{"h" + rest}}
+	}
 	env := verifNewEnv(pol)
+	if caseVariant {
+		env.Auth.ProfileGroups = []string{"H" + rest}
+		zz.Reach("case-variant-group")
+	}
 	s := &sessions.SessionState{Email: zz.NondetString("email"), AccessToken: zz.NondetString("token")}
 	var gv validators.Validator
 	for _, v := range env.P.Validators {
